@@ -59,7 +59,7 @@ def _phi(z):
     zz = to_z3(z, like=z3.RealSort())
     key = ("phi", zz.get_id())
     if key not in ex.memo:
-        t = PHI(zz)
+        t = ex.fresh_real('Phi')   # Ackermannised: fresh constant per argument term + pairwise axioms
         ex.memo[key] = t
         _register("phi", zz, t)
     return ex.memo[key]
@@ -88,7 +88,7 @@ def _phiinv(p):
     pz = to_z3(p, like=z3.RealSort())
     key = ("phiinv", pz.get_id())
     if key not in ex.memo:
-        t = PHIINV(pz)
+        t = ex.fresh_real('PhiInv')
         ex.memo[key] = t
         _register("phiinv", pz, t)
     return ex.memo[key]
@@ -140,7 +140,7 @@ class _Ksone:
             return box(core.irrational_const("ksone", float(st.ksone.ppf(float(q), int(n))), (str(q), str(n))) if core.in_exploration()
                        else core.lift_float(float(st.ksone.ppf(float(q), int(n)))))
         ex = core.cur()
-        t = _KS(to_z3(q, like=z3.RealSort()), to_z3(n))
+        t = ex.fresh_real('ksone')
         ex.assume(z3.And(t > 0, t <= 1), axiom=True)
         return box(t)
 
